@@ -252,6 +252,37 @@ class SimLoop(asyncio.SelectorEventLoop):
         self.io_events = 0
         self.idle_jumps = 0         # clock jumps because nothing was runnable
         self._leftover = False
+        # a signal handler that runs while the loop sleeps in its poll: what it
+        # queues with call_soon() is only noticed at the next wake-up (timer,
+        # descriptor, call_soon_threadsafe) - the real loop does not wake up
+        self.asleep_signal = False
+        self._deferred = []
+
+    def call_soon(self, callback, *args, context=None):
+        h = super().call_soon(callback, *args, context=context)
+        if self.asleep_signal:
+            try:
+                self._ready.remove(h)
+            except ValueError:
+                return h
+            self._deferred.append(h)
+        return h
+
+    def call_soon_threadsafe(self, callback, *args, context=None):
+        was = self.asleep_signal
+        self.asleep_signal = False
+        try:
+            self._wake_deferred()
+            return super().call_soon_threadsafe(callback, *args,
+                                                context=context)
+        finally:
+            self.asleep_signal = was
+
+    def _wake_deferred(self):
+        if self._deferred:
+            d, self._deferred = self._deferred, []
+            for h in reversed(d):
+                self._ready.appendleft(h)
 
     def time(self):
         return self.sim.now
@@ -313,6 +344,8 @@ class SimLoop(asyncio.SelectorEventLoop):
             self._process_events(event_list)
         event_list = None
         self._move_due_timers()
+        if self._ready and self._deferred:
+            self._wake_deferred()       # the loop woke up for something else
 
         if not self._ready:
             # idle: discrete-event jump to the next timer / environment event
@@ -333,6 +366,8 @@ class SimLoop(asyncio.SelectorEventLoop):
                 self._stopping = True
                 return
             self._move_due_timers()
+            if self._ready and self._deferred:
+                self._wake_deferred()
             if not self._ready:
                 # only environment events fired (no step): the stop condition
                 # (e.g. a virtual deadline) must still be honoured
